@@ -251,6 +251,7 @@ impl Clone for RouteOrigin {
     #[verifier::external_body]
     fn clone(&self) -> (r: RouteOrigin) ensures r == *self { unimplemented!() }
 }
+impl Copy for RouteOrigin {}
 impl PartialEqSpecImpl for RouteOrigin {
     open spec fn obeys_eq_spec() -> bool { true }
     open spec fn eq_spec(&self, other: &RouteOrigin) -> bool { *self == *other }
@@ -396,4 +397,54 @@ impl PartialEqSpecImpl<u32> for Serial {
 impl PartialEq<u32> for Serial {
     #[verifier::external_body]
     fn eq(&self, other: &u32) -> bool { unimplemented!() }
+}
+
+// ---------------------------------------------------------------- serving a delta (DeltaArcIter)
+// rpki::rtr::payload::{PayloadType, PayloadRef}: plain enums in rpki; the From conversions wrap the
+// value in the variant of its type (ASSUMED: as in rpki).
+#[derive(Clone, Copy)]
+pub enum PayloadType { Origin, RouterKey, Aspa }
+
+#[derive(Clone, Copy)]
+pub enum PayloadRef<'a> {
+    Origin(RouteOrigin),
+    RouterKey(&'a RouterKey),
+    Aspa(&'a Aspa),
+}
+impl<'a> vstd::std_specs::convert::FromSpecImpl<&'a RouteOrigin> for PayloadRef<'a> {
+    open spec fn obeys_from_spec() -> bool { true }
+    open spec fn from_spec(v: &'a RouteOrigin) -> PayloadRef<'a> { PayloadRef::Origin(*v) }
+}
+impl<'a> From<&'a RouteOrigin> for PayloadRef<'a> {
+    #[verifier::external_body]
+    fn from(src: &'a RouteOrigin) -> PayloadRef<'a> { unimplemented!() }
+}
+impl<'a> vstd::std_specs::convert::FromSpecImpl<RouteOrigin> for PayloadRef<'a> {
+    open spec fn obeys_from_spec() -> bool { true }
+    open spec fn from_spec(v: RouteOrigin) -> PayloadRef<'a> { PayloadRef::Origin(v) }
+}
+impl<'a> From<RouteOrigin> for PayloadRef<'a> {
+    #[verifier::external_body]
+    fn from(src: RouteOrigin) -> PayloadRef<'a> { unimplemented!() }
+}
+impl<'a> vstd::std_specs::convert::FromSpecImpl<&'a RouterKey> for PayloadRef<'a> {
+    open spec fn obeys_from_spec() -> bool { true }
+    open spec fn from_spec(v: &'a RouterKey) -> PayloadRef<'a> { PayloadRef::RouterKey(v) }
+}
+impl<'a> From<&'a RouterKey> for PayloadRef<'a> {
+    #[verifier::external_body]
+    fn from(src: &'a RouterKey) -> PayloadRef<'a> { unimplemented!() }
+}
+impl<'a> vstd::std_specs::convert::FromSpecImpl<&'a Aspa> for PayloadRef<'a> {
+    open spec fn obeys_from_spec() -> bool { true }
+    open spec fn from_spec(v: &'a Aspa) -> PayloadRef<'a> { PayloadRef::Aspa(v) }
+}
+impl<'a> From<&'a Aspa> for PayloadRef<'a> {
+    #[verifier::external_body]
+    fn from(src: &'a Aspa) -> PayloadRef<'a> { unimplemented!() }
+}
+
+// rpki::rtr::server::PayloadDiff: the interface through which the RTR server pulls a delta's actions
+pub trait PayloadDiff {
+    fn next(&mut self) -> Option<(PayloadRef<'_>, Action)>;
 }
